@@ -5,7 +5,7 @@ from props._lab import Lab, SymEnv, do_op, base_tree, show, strip_conflicted, re
 PROP = "C01"
 LEVEL = "other"
 SELFTEST_PARTS = ("num",)
-WALL_BUDGET = {"quick": 1200, "thorough": 9000}
+WALL_BUDGET = {"quick": 3600, "thorough": 14400}
 OPS = ["create_a", "create_b", "write_a", "delete_a", "rename_a_b", "mkdir_d", "rmdir_d", "move_a_d", "rendir_d_e",
        "mkdir_d_s", "create_d_a"]
 OPS_EXT = OPS + ["mkdir_a", "rmdir_a", "rename_a_c"]          # a folder taking a file's name; a second rename target
